@@ -36,6 +36,7 @@ pub struct Counters {
     pub out_of_domain: u64,
     pub indeterminate_cases: u64,
     pub platt_errors: u64,
+    pub platt_degenerate: u64,
     pub calibrated_models: u64,
     pub fits_shrinking_on: u64,
     pub fits_where_do_shrinking_was_called: u64,
@@ -56,6 +57,8 @@ pub struct Counters {
     pub layout_observations: u64,
     pub builder_sequences: u64,
     pub stale_buffer_calls: u64,
+    pub form_fits: u64,
+    pub form_predicts: u64,
     pub last_iters: (u64, u64),
     pub last_nsupport: u64,
 }
@@ -67,6 +70,7 @@ impl Counters {
         self.out_of_domain += o.out_of_domain;
         self.indeterminate_cases += o.indeterminate_cases;
         self.platt_errors += o.platt_errors;
+        self.platt_degenerate += o.platt_degenerate;
         self.calibrated_models += o.calibrated_models;
         self.fits_shrinking_on += o.fits_shrinking_on;
         self.fits_where_do_shrinking_was_called += o.fits_where_do_shrinking_was_called;
@@ -87,6 +91,8 @@ impl Counters {
         self.layout_observations += o.layout_observations;
         self.builder_sequences += o.builder_sequences;
         self.stale_buffer_calls += o.stale_buffer_calls;
+        self.form_fits += o.form_fits;
+        self.form_predicts += o.form_predicts;
     }
     pub fn as_pairs(&self) -> Vec<(&'static str, u64)> {
         vec![
@@ -96,7 +102,10 @@ impl Counters {
             ("layout_family_predict_observations_compared", self.layout_observations),
             ("builder_family_sequences_compared_with_canonical", self.builder_sequences),
             ("predict_inplace_stale_buffer_and_single_sample_calls", self.stale_buffer_calls),
-            ("platt_calibration_errors_not_judged", self.platt_errors),
+            ("calling_form_family_fits", self.form_fits),
+            ("calling_form_family_predict_forms_compared", self.form_predicts),
+            ("platt_calibration_errors", self.platt_errors),
+            ("platt_calibration_errors_on_degenerate_decision_values_not_judged", self.platt_degenerate),
             ("calibrated_models_judged", self.calibrated_models),
             ("fits_shrinking_on", self.fits_shrinking_on),
             ("fits_where_do_shrinking_was_called", self.fits_where_do_shrinking_was_called),
@@ -127,7 +136,7 @@ fn dot_abs(a: &[f64], b: &[f64]) -> f64 {
 pub fn kern(k: &Kern, a: &[f64], b: &[f64]) -> f64 {
     match k {
         Kern::Linear => dot(a, b),
-        Kern::Gaussian(e) => {
+        Kern::Gaussian(e) | Kern::SparseGaussian(e, _) => {
             let d: f64 = a.iter().zip(b).map(|(x, y)| (x - y) * (x - y)).sum();
             (-d / e).exp()
         }
@@ -138,7 +147,7 @@ pub fn kern(k: &Kern, a: &[f64], b: &[f64]) -> f64 {
 fn kern_abs(k: &Kern, a: &[f64], b: &[f64]) -> f64 {
     match k {
         Kern::Linear => dot_abs(a, b),
-        Kern::Gaussian(_) => kern(k, a, b),
+        Kern::Gaussian(_) | Kern::SparseGaussian(..) => kern(k, a, b),
         Kern::Poly(c, d) => (dot_abs(a, b) + c.abs()).powf(*d),
     }
 }
@@ -151,8 +160,13 @@ pub struct Env<'a> {
     pub rel: f64,
     /// absolute floor below which the subject's float type underflows / is subnormal
     pub tiny: f64,
-    /// K[i][j] over the training samples
+    /// K[i][j] over the training samples (dense kernel function, what weighted_sum evaluates)
     pub k: Vec<Vec<f64>>,
+    /// the kernel matrix the solver works on: = k for dense kernels; for a sparse kernel, K_ij is kept only
+    /// where i = j or one of the two points is among the k nearest neighbours of the other
+    pub kfit: Vec<Vec<f64>>,
+    /// sparse kernel only: the k-th and (k+1)-th neighbour of some point are equidistant (neighbour set ambiguous)
+    pub sparse_tie: bool,
     pub kabs: Vec<Vec<f64>>,
     /// probe x train
     pub kp: Vec<Vec<f64>>,
@@ -162,13 +176,38 @@ pub struct Env<'a> {
 impl<'a> Env<'a> {
     pub fn new(case: &'a Case, xs: Vec<Vec<f64>>, ps: Vec<Vec<f64>>, ts: Vec<f64>, eps_mach: f64) -> Env<'a> {
         let n = xs.len();
-        let k = xs.iter().map(|a| xs.iter().map(|b| kern(&case.kernel, b, a)).collect()).collect();
+        let k: Vec<Vec<f64>> = xs.iter().map(|a| xs.iter().map(|b| kern(&case.kernel, b, a)).collect()).collect();
+        let mut kfit = k.clone();
+        let mut sparse_tie = false;
+        if let Kern::SparseGaussian(_, nn) = case.kernel {
+            let sq = |a: &[f64], b: &[f64]| -> f64 { a.iter().zip(b).map(|(x, y)| (x - y) * (x - y)).sum() };
+            let mut adj = vec![vec![false; n]; n];
+            for i in 0..n {
+                let mut order: Vec<usize> = (0..n).filter(|&j| j != i).collect();
+                order.sort_by(|&a, &b| sq(&xs[i], &xs[a]).partial_cmp(&sq(&xs[i], &xs[b])).unwrap());
+                adj[i][i] = true;
+                if nn < order.len() && (sq(&xs[i], &xs[order[nn - 1]]) - sq(&xs[i], &xs[order[nn]])).abs() <= 1e-9 {
+                    sparse_tie = true;
+                }
+                for &j in order.iter().take(nn) {
+                    adj[i][j] = true;
+                    adj[j][i] = true;
+                }
+            }
+            for i in 0..n {
+                for j in 0..n {
+                    if !adj[i][j] {
+                        kfit[i][j] = 0.0;
+                    }
+                }
+            }
+        }
         let kabs = xs.iter().map(|a| xs.iter().map(|b| kern_abs(&case.kernel, b, a)).collect()).collect();
         let kp = ps.iter().map(|a| xs.iter().map(|b| kern(&case.kernel, b, a)).collect()).collect();
         let kpabs = ps.iter().map(|a| xs.iter().map(|b| kern_abs(&case.kernel, b, a)).collect()).collect();
         let rel = if eps_mach > 1e-10 { 1e-4 } else { 1e-9 };
         let tiny = if eps_mach > 1e-10 { 1e-30 } else { 1e-290 };
-        Env { case, n, ts, eps_mach, rel, tiny, k, kabs, kp, kpabs }
+        Env { case, n, ts, eps_mach, rel, tiny, k, kfit, sparse_tie, kabs, kp, kpabs }
     }
 
     /// domain predicate: nu-SVC needs nu*n/2 <= min(n+, n-), otherwise the dual has no feasible point
@@ -268,6 +307,10 @@ pub fn check_model(env: &Env, pre: &str, shrink: bool, o: &Obs, off: Option<&Obs
         // empty feasible set: nothing but termination can be demanded
         return;
     }
+    if env.sparse_tie {
+        cnt.indeterminate_cases += 1;
+        return;
+    }
     cnt.models_judged += 1;
     if sh.reached_max != (sh.iters >= MAX_ITER) {
         push("display.exit_reason_inconsistent_with_iterations", format!("Display says {:?} (iteration cap is {})", o.display, MAX_ITER));
@@ -341,6 +384,7 @@ pub fn check_model(env: &Env, pre: &str, shrink: bool, o: &Obs, off: Option<&Obs
     // ---- reference decision values ----
     let s_train: Vec<f64> = (0..n).map(|i| (0..n).map(|j| o.alpha[j] * env.k[i][j]).sum()).collect();
     let sabs_train: Vec<f64> = (0..n).map(|i| (0..n).map(|j| o.alpha[j].abs() * env.kabs[i][j]).sum()).collect();
+    let s_kkt: Vec<f64> = (0..n).map(|i| (0..n).map(|j| o.alpha[j] * env.kfit[i][j]).sum()).collect();
     let s_probe: Vec<f64> = env.kp.iter().map(|row| (0..n).map(|j| o.alpha[j] * row[j]).sum()).collect();
     let sabs_probe: Vec<f64> = env.kpabs.iter().map(|row| (0..n).map(|j| o.alpha[j].abs() * row[j]).sum()).collect();
 
@@ -526,7 +570,7 @@ pub fn check_model(env: &Env, pre: &str, shrink: bool, o: &Obs, off: Option<&Obs
             for i in 0..n {
                 let a = y[i] * o.alpha[i];
                 let u = uraw[i] * scale;
-                let f = s_train[i] - o.rho;
+                let f = s_kkt[i] - o.rho;
                 let g = y[i] * f - margin;
                 let tau = scale * (2.0 * case.eps + rounding(i, &ufn, p_raw));
                 if tau > 0.25 {
@@ -565,7 +609,7 @@ pub fn check_model(env: &Env, pre: &str, shrink: bool, o: &Obs, off: Option<&Obs
                 push("equality.sum_alpha_nonzero", format!("sum_i alpha_i = {} (tolerance {:.3e})", s, eq_tol(c)));
             }
             let ufn = |_j: usize| c;
-            let resid: Vec<f64> = (0..n).map(|i| env.ts[i] - (s_train[i] - o.rho)).collect();
+            let resid: Vec<f64> = (0..n).map(|i| env.ts[i] - (s_kkt[i] - o.rho)).collect();
             match case.problem {
                 Problem::EpsSvr { eps_loss, .. } => {
                     for i in 0..n {
